@@ -117,5 +117,8 @@ def eval_point(pt, R):
             L = nf if cplx else (nf // 2 + 1 if nf % 2 == 0 else (nf + 1) // 2)
             exp = ref if cplx else 2.0 * ref[:L]
             R.check(P.shape == exp.shape and close(P, exp, tol, 0.0), 'class', feats, pt, P, exp, 'pminvar.psd is not the minvar estimate on the reported grid')
+            R.check(np.asarray(o.ar).shape == np.asarray(A_).shape and close(np.asarray(o.ar), np.asarray(A_), 1e-12, 1e-14)
+                    and np.asarray(o.reflection).shape == np.asarray(k_).shape and close(np.asarray(o.reflection), np.asarray(k_), 1e-12, 1e-14), 'class', dict(feats, attr='ar/reflection'), pt,
+                    [o.ar, o.reflection], [A_, k_], 'pminvar.ar / .reflection are not the AR vector and reflection coefficients returned by minvar')
         except Exception as e:
             R.viol('class', dict(feats, exc=type(e).__name__), pt, repr(e), None, 'pminvar raised inside its domain')
